@@ -86,4 +86,33 @@ def CasmMeta.unmarshal (bs : Bytes) : Option CasmMeta :=
           else some { declaredAt, v2, migratedAt, v1 := some (r3.take 32) }
         else some { declaredAt, v2, migratedAt, v1 := none }
 
+/-! ### `felt.Slice` (core/felt/slice.go): a second, hand-written copy of the CBOR array header
+
+`Slice.MarshalCBOR` writes the array header itself (`encodeCBORArrayHeader(uint32(len(s)))`) and
+`Slice.UnmarshalCBOR` reads it back (`decodeCBORArrayHeader`) before falling back to the generic
+decoder. Transcribed here so that the duplicated width logic is under a theorem: it must coincide
+with the canonical head (`head 4 n`) for every length below 2^32 (beyond, `uint32(len)` truncates). -/
+
+/-- `encodeCBORArrayHeader(uint32(n))`. -/
+def sliceHeader (n : Nat) : Bytes :=
+  let a := n % 4294967296
+  if a < 24 then [UInt8.ofNat (128 + a)]
+  else if a ≤ 255 then [152, UInt8.ofNat a]
+  else if a ≤ 65535 then (153 : UInt8) :: be 2 a
+  else (154 : UInt8) :: be 4 a
+
+/-- `decodeCBORArrayHeader`: (element count, bytes consumed), or `none` (not an array, or a width
+the fast path does not handle: 8-byte lengths, reserved). -/
+def decSliceHeader : Bytes → Option (Nat × Nat)
+  | [] => none
+  | b :: rest =>
+    if b.toNat / 32 ≠ 4 then none
+    else
+      let ai := b.toNat % 32
+      if ai < 24 then some (ai, 1)
+      else if ai = 24 ∧ 1 ≤ rest.length then some (fromBE (rest.take 1), 2)
+      else if ai = 25 ∧ 2 ≤ rest.length then some (fromBE (rest.take 2), 3)
+      else if ai = 26 ∧ 4 ≤ rest.length then some (fromBE (rest.take 4), 5)
+      else none
+
 end Juno.C07
